@@ -461,6 +461,9 @@ def soil_evaporation(
                 W = 1000 * NewCond_th[comp] * prof.dz[comp]
                 # Water available in compartment for extraction (mm)
                 AvW = (W - Wdry) * factor
+                # no water is available below the evaporation layer (factor < 0)
+                if AvW < 0:
+                    AvW = 0
                 if AvW >= ToExtractStg2:
                     # Update actual evaporation
                     EsAct = EsAct + ToExtractStg2
